@@ -12,6 +12,7 @@ import (
 	"github.com/tidwall/resp"
 	"github.com/tidwall/rtree"
 	"github.com/tidwall/tile38/internal/collection"
+	"github.com/tidwall/tile38/internal/endpoint"
 )
 
 // vhServer builds the in-memory server the way Serve does, without listeners, files, Lua pool or
@@ -36,6 +37,8 @@ func vhServer() *Server {
 	}
 	s.config = &Config{}
 	if vnative() {
+		// webhooks start their manager goroutine natively (go statements are ignored in the engine)
+		s.epc = endpoint.NewManager(s)
 		// READONLY / CONFIG REWRITE write the configuration file (a no-op stub in the engine)
 		s.config.path = os.TempDir() + "/verif-tile38-config"
 	}
